@@ -28,7 +28,7 @@ RULE = (
 ASSUMPTIONS = ["a non-eval sync replaces the whole parameter/attribute, name included (pinned by the repository's own tests)",
                "names unique per scope except deliberate re-binding; function bodies hold no named definitions"]
 CORE_ALLOWED = ()
-FRONTIER_KNOBS = ("kwarg_out", "valued_input", "cross_kind", "bad_address", "out_fn_has_defaults", "module_doc", "repeated_input_wrap", "valued_same_name", "stale_location")
+FRONTIER_KNOBS = ("kwarg_out", "valued_input", "cross_kind", "bad_address", "out_fn_has_defaults", "module_doc", "valued_same_name")
 FLOORS = {"pairs>=2": 0.05, "wrap": 0.1, "eval": 0.02}
 WRAPS = (None, None, "Optional[{output_param}]", "Optional[Union[{output_param}, str]]")
 
@@ -137,8 +137,6 @@ def _case(draw, knob):
         if knob != "out_fn_has_defaults":
             # shapes of open findings are excluded by construction everywhere but in their own frontier budget
             cands = [o for o in cands if not (o[1] in ARGK and _method_with_defaults(otree, o[0]))]
-        if knob != "repeated_input_wrap" and wrap and any(tuple(i[0]) == tuple(p[0]) for p in pairs):
-            continue  # one input paired with several outputs is fine without a wrap template (with one: finding KF-Y02)
         if not cands:
             continue
         o = draw(st.sampled_from(cands))
@@ -148,8 +146,6 @@ def _case(draw, knob):
                 o = draw(st.sampled_from(m2))
         if knob == "repeated_input_wrap" and pairs:
             i = (pairs[0][0], None)
-        if knob != "stale_location" and any(tuple(p_[0]) == tuple(o[0]) for p_ in pairs):
-            continue  # an earlier pair's INPUT path equal to this pair's OUTPUT path: finding KF-Y07
         key = (tuple(o[0][:-1]), o[0][-1] if ev else i[0][-1])
         if key in new_names:
             continue  # two pairs must not give two nodes of one scope the same (input) name
